@@ -132,7 +132,7 @@ class CountStream(Stream):
 
     def request(self, pl):
         if pl["what"] == "numnodes":
-            return f"(numnodes {pl['exprs'][0]})"
+            return f"(c09count {pl['exprs'][0]})"
         aware = "true" if pl["what"] == "flopscse" else "false"
         return f"(flops {aware} ({' '.join(pl['exprs'])}))"
 
@@ -173,7 +173,10 @@ class CountStream(Stream):
                     return None
                 continue
             if pl["what"] == "numnodes":
-                want = len({(type(s), s) for s in scan.subterms(e)})
+                f = numnodes_failure(e, got, pl)
+                if f is not None:
+                    return f
+                continue
             elif pl["what"] == "flops":
                 want = scan.count_flops(e)
             else:
@@ -199,16 +202,225 @@ class CountStream(Stream):
             acc["errors"] = acc.get("errors", 0) + 1
 
 
+def numnodes_failure(e, got, pl):
+    """The property's sentence "the node counter equals the number of distinct subexpressions",
+    read on the real code.  "Distinct" has one meaning when no two subexpressions are confusable
+    (then the number of classes under Python `==` alone equals the number of structurally
+    different subterms, constant types included) and the count must be exactly that; on
+    confusable trees (`1` / `1.0` / `True` below equal parents, `0.0` / `-0.0`, …) every count
+    between the coarsest and the finest reading is accepted."""
+    coarse, fine = scan.distinct_counts(e)
+    if coarse <= got <= fine:
+        return None
+    if coarse == fine:
+        return Failure("numnodes-differs",
+                       f"numnodes gives {got}, independent count of distinct subexpressions {fine}", pl)
+    return Failure("numnodes-differs",
+                   f"numnodes gives {got}, outside every reading of 'distinct': [{coarse}, {fine}]", pl)
+
+
+# spellings of one number that are `==` in Python but of different type (or sign of zero)
+_SPELL = {0: [("Int", 0), ("Bool", False), ("Flt", 0.0), ("Flt", -0.0)],
+          1: [("Int", 1), ("Bool", True), ("Flt", 1.0)]}
+
+
+def _spell(kind, v):
+    from ..sexp import _float_parts
+    if kind == "Int":
+        return [A("Int"), int(v)]
+    if kind == "Bool":
+        return [A("Bool"), bool(v)]
+    return _float_parts(float(v))
+
+
+def respell(s, rng, prob):
+    """the same tree with constants re-spelled inside their `==` class (and the keyword order of
+    calls permuted): every node of the result is `==` to the corresponding node of `s`"""
+    if isinstance(s, list) and s and isinstance(s[0], A):
+        h = s[0]
+        if h in ("Int", "Bool", "Flt"):
+            if rng.random() >= prob:
+                return s
+            if h == "Flt":
+                if s[3] != 1:
+                    return s          # not integral (or nan/inf): no other spelling
+                v = int(s[2])
+            else:
+                v = int(s[1])
+            if v in _SPELL:
+                return _spell(*rng.choice(_SPELL[v]))
+            if abs(v) > 2 ** 40:
+                return s
+            return _spell(rng.choice(["Int", "Flt"]), v)
+        if h == "CallKw":
+            idx = list(range(len(s[3])))
+            if rng.random() < prob:
+                rng.shuffle(idx)
+            return [h, respell(s[1], rng, prob), [respell(c, rng, prob) for c in s[2]],
+                    [s[3][i] for i in idx], [respell(s[4][i], rng, prob) for i in idx]]
+        if h in ("Str", "Var"):
+            return s
+        return [h] + [respell(c, rng, prob) for c in s[1:]]
+    if isinstance(s, list):
+        return [respell(c, rng, prob) for c in s]
+    return s        # atoms, field strings
+
+
+class NodeCountStream(Stream):
+    """`get_num_nodes` on trees that contain `==`-confusable subterms on purpose (equal parents
+    above `1` / `1.0` / `True`, `0` / `0.0` / `False` / `-0.0`, keyword mappings in another order):
+    exercises the cache-hit path of `CachedMapper.__call__`.  Two requests per tree: the count, and
+    the nodes counted in `post_visit` order (an instrumented `NodeCountMapper` subclass)."""
+    name = "nodecount"
+
+    def _tree(self, rng, g):
+        r = rng
+        ctx = r.choice(["int", "int", "num", "bool", "small", "any"])
+        base = expr_to_sx(g.gen(ctx, r.randint(0, 3)))
+        k = r.random()
+        variants = [respell(base, r, r.choice([0.3, 0.6, 1.0])) for _ in range(r.randint(1, 3))]
+        if k < 0.15:
+            variants.append(base)                       # a structurally identical repeat as well
+        parts = [base] + variants
+        if r.random() < 0.3:
+            # bury one variant one level deeper, next to a fresh subtree
+            other = expr_to_sx(g.gen("int", 1))
+            parts[-1] = [A(r.choice(["Sum", "Product", "Max"])), parts[-1], other]
+        if r.random() < 0.3:
+            r.shuffle(parts)
+        shape = r.choice(["nary", "nary", "cmp", "if", "call", "callkw", "shift", "bin",
+                          "subscript", "tuple", "slice", "cse", "nested"])
+        a, b = parts[0], parts[1]
+        c = parts[2] if len(parts) > 2 else respell(base, r, 0.5)
+        if shape == "nary":
+            return [A(r.choice(["Sum", "Product", "Min", "LogicalOr", "BitwiseXor"])), *parts]
+        if shape == "cmp":
+            return [A("Comparison"), a, r.choice(["==", "!=", "<"]), b]
+        if shape == "if":
+            return [A("If"), a, b, c]
+        if shape == "call":
+            return [A("Call"), [A("Var"), "f"], parts]
+        if shape == "callkw":
+            return [A("CallKw"), [A("Var"), "f"], [a], ["k", "a"], [b, c]]
+        if shape == "shift":
+            return [A(r.choice(["LeftShift", "RightShift"])), a, b]
+        if shape == "bin":
+            return [A(r.choice(["Quotient", "FloorDiv", "Remainder", "Power"])), a, b]
+        if shape == "subscript":
+            return [A("Subscript"), a, b]
+        if shape == "tuple":
+            return [A("Tuple"), *parts]
+        if shape == "slice":
+            sl = [a, A("nil"), b] if r.random() < 0.5 else [A("nil"), a, b]
+            return [A("Sum"), [A("Slice"), *sl], [A("Slice"), *[respell(x, r, 0.7) for x in sl]]]
+        if shape == "cse":
+            pre = r.choice([A("nil"), "cs"])
+            return [A("Sum"), [A("CSE"), a, pre, "pymbolic_expression"],
+                    [A("CSE"), b, r.choice([pre, pre, "u"]), "pymbolic_expression"], c]
+        # nested: equal parents two levels above the confusable constants
+        wrap = lambda x: [A("Product"), [A("Sum"), x, [A("Var"), "x"]], [A("Var"), "y"]]  # noqa: E731
+        return [A("Sum"), wrap(a), wrap(b), c]
+
+    def cases(self, rng, tier):
+        # the witness tree of the theorems first
+        fixed = [
+            [A("Comparison"), [A("Sum"), _spell("Flt", 2)], "!=", [A("Sum"), _spell("Int", 2)]],
+            [A("Sum"), [A("Product"), _spell("Flt", 0.0), [A("Var"), "x"]],
+             [A("Product"), _spell("Flt", -0.0), [A("Var"), "x"]], _spell("Int", 0),
+             [A("Product"), _spell("Bool", False), [A("Var"), "x"]], _spell("Bool", False)],
+            [A("Sum"), _spell("Int", 2), _spell("Flt", 2)],
+            [A("Sum"), [A("Flt"), "nan", 0, 0], [A("Flt"), "nan", 0, 0], [A("Flt"), "inf", 0, 0],
+             [A("Flt"), "inf", 0, 0], [A("Flt"), "-inf", 0, 0]],
+            [A("Sum"), [A("Product"), [A("Flt"), "nan", 0, 0]], [A("Product"), [A("Flt"), "nan", 0, 0]]],
+            [A("LeftShift"), [A("Sum"), _spell("Int", 1), [A("Str"), "abc"]],
+             [A("Sum"), _spell("Bool", True), [A("Var"), "x"]]],
+        ]
+        for t in fixed:
+            for what in ("count", "keys"):
+                yield {"what": what, "expr": dumps(t)}
+        n = 700 if tier == "quick" else 12000
+        g = ExprGen(rng, cse=0.1, floats=0.1, malformed=0.02)
+        for i in range(n):
+            t = self._tree(rng, g)
+            if rng.random() < 0.03:
+                t = [A("Sum"), t, [A("Flt"), "nan", 0, 0], [A("Flt"), "nan", 0, 0]]
+            yield {"what": "keys" if i % 2 else "count", "expr": dumps(t)}
+
+    def request(self, pl):
+        return f"({'c09keys' if pl['what'] == 'keys' else 'c09count'} {pl['expr']})"
+
+    def run_impl(self, pl):
+        from pymbolic.mapper.analysis import NodeCountMapper, get_num_nodes
+        e = sx_to_expr(loads(pl["expr"]))
+        try:
+            if pl["what"] == "count":
+                return str(get_num_nodes(e))
+
+            class Recording(NodeCountMapper):
+                def __init__(self):
+                    super().__init__()
+                    self.counted = []
+
+                def post_visit(self, expr):
+                    super().post_visit(expr)
+                    self.counted.append(expr)
+
+            m = Recording()
+            m(e)
+            return f"({m.count} ({' '.join(dumps(expr_to_sx(k)) for k in m.counted)}))"
+        except RecursionError:
+            raise
+        except Exception as ex:
+            return err_sx(ex)
+
+    def oracle(self, pl):
+        from pymbolic.mapper.analysis import get_num_nodes
+        e = sx_to_expr(loads(pl["expr"]))
+        try:
+            got = get_num_nodes(e)
+        except Exception:
+            return None
+        return numnodes_failure(e, got, pl)
+
+    def shrink(self, pl):
+        for s in sx_shrinks(loads(pl["expr"])):
+            yield {**pl, "expr": dumps(s)}
+
+    def nontrivial_key(self, pl, model, impl):
+        return pl["what"] + pl["expr"] if "err" not in impl else None
+
+    def stats(self, pl, mo, io, acc):
+        acc[pl["what"]] = acc.get(pl["what"], 0) + 1
+        if "err" in io:
+            acc["errors"] = acc.get("errors", 0) + 1
+            return
+        e = sx_to_expr(loads(pl["expr"]))
+        coarse, fine = scan.distinct_counts(e)
+        got = int(io.split()[0].lstrip("("))
+        if coarse < fine:
+            acc["confusable_trees"] = acc.get("confusable_trees", 0) + 1
+        if got < fine:
+            acc["count_below_finest"] = acc.get("count_below_finest", 0) + 1
+        try:
+            keyed = len({(type(s), s) for s in scan.subterms(e)})
+        except TypeError:
+            return
+        if got != keyed:
+            # the cache hit hid a subterm of another constant type: the case the
+            # dedup-after-the-walk model got wrong
+            acc["count_differs_from_typed_eq_classes"] = acc.get("count_differs_from_typed_eq_classes", 0) + 1
+
+
 PROP = Prop(
     id="C09",
     title="Dependency, node-count and flop analyses are exact",
     lean_targets=["PV.Properties.C09"],
     theorems=[],
-    streams=[DepStream(), CountStream()],
+    streams=[DepStream(), CountStream(), NodeCountStream()],
     trusted_base=["Lean 4.33 kernel; axioms propext, Classical.choice, Quot.sound only",
                   "harness serialisation; Python set semantics modelled as duplicate-free lists under =="],
-    level_text='Lean theorems (unbounded, all flag settings): the dependency analysis returns exactly the occurrences selected by the flags (soundness: every result is an outermost selected subterm; completeness up to Python == on well-formed trees), with all composite flags off it returns exactly the free variables, and evaluation depends only on those (coincidence lemma); the flop counter equals an independent operation count and the CSE-aware counter counts a seen wrapper as 0. Tied to DependencyMapper (plain/cached, composite_leaves), get_num_nodes, FlopCounter, CSEAwareFlopCounter by correspondence.',
-    level_note='Trusted: Lean kernel; harness; Python sets modelled as duplicate-free lists under == with left-biased union. Completeness needs well-formed trees (no nan constants, duplicate-free keyword names). Node counting is tied by correspondence and the independent scan only.',
+    level_text='Lean theorems (unbounded, all flag settings): the dependency analysis returns exactly the occurrences selected by the flags (soundness: every result is an outermost selected subterm; completeness up to Python == on well-formed trees), with all composite flags off it returns exactly the free variables, and evaluation depends only on those (coincidence lemma); the flop counter equals an independent operation count and the CSE-aware counter counts a seen wrapper as 0; the node counter (an exact model of the cached walk: lookup before dispatch, store after the handler) returns exactly the number of distinct subexpressions whenever no two subterms are confusable under the cache key (type, ==), and on every well-formed tree a number between the count of ==-classes and the count of structurally distinct subterms (both bounds witnessed not to be the count in general). Tied to DependencyMapper (plain/cached, composite_leaves), get_num_nodes, FlopCounter, CSEAwareFlopCounter by correspondence.',
+    level_note='Trusted: Lean kernel; harness; Python sets modelled as duplicate-free lists under == with left-biased union. Completeness needs well-formed trees (no nan constants, duplicate-free keyword names). Node counting: the theorem needs no nan constants; on ==-confusable trees (1 / 1.0 / True below equal parents) the sentence of the property is ambiguous and the oracle accepts any count between the coarsest and the finest reading, while the correspondence (count and counted nodes in post_visit order) stays exact.',
     technique='Lean 4 proofs about the traversal model (Occurs relation, coincidence lemma) + differential correspondence + independent dataclass-field scan',
     design_ref="DESIGN.md §4 C09",
 )
